@@ -484,14 +484,18 @@ func report(env Env, p Property, ph Phase, seed uint64, fv *FoundViolation, know
 		// and is reported as intermittent.
 		// (12 processes of up to 250 executions each)
 		execRepeat = 250
-		for i := 0; i < 12 && class != fv.V.Class; i++ {
+		for i := 0; i < 12 && class == ""; i++ {
 			class, sig, detail, out, err = execOnce(env, p, ph, fv.Scenario, false)
 			if err != nil {
 				break
 			}
 		}
-		if class != fv.V.Class {
+		if class == "" || err != nil {
 			execRepeat = 1
+		} else if class != fv.V.Class {
+			// the same defect may be caught by another oracle first
+			fmt.Printf("  in fresh processes the scenario shows %s instead of %s; reporting that\n", class, fv.V.Class)
+			fv = &FoundViolation{Run: fv.Run, K: fv.K, N: fv.N, V: Violation{Class: class, Sig: sig, Detail: detail}, Scenario: fv.Scenario}
 		}
 		if class == fv.V.Class {
 			intermittent = true
